@@ -322,8 +322,9 @@ func runC13(c *ctx) {
 	// bytes returned for one item stay what they were while other items are encoded
 	{
 		first := c13Build(ref.L, 0).ToBytes()
+		keep1 := append([]byte(nil), first...) // what was returned, noted before anything else is encoded
 		second := ast.NewListNode(c13Build(ref.B, 3), c13Build(ref.L, 2)).ToBytes()
-		keep1, keep2 := append([]byte(nil), first...), append([]byte(nil), second...)
+		keep2 := append([]byte(nil), second...)
 		_ = c13Build(ref.L, 255).ToBytes()
 		_ = c13Build(ref.L, 65536).ToBytes()
 		_ = c13Build(ref.A, 300).ToBytes()
